@@ -4,6 +4,7 @@ import modelx as mx
 import pandas as pd
 from .base import PropBase, Violation
 from .. import machine, kernel
+from ..world import library_self_check
 
 SPACES = ["A", "B", "C"]
 NAMES = ["d1", "d2", "d3"]
@@ -193,9 +194,7 @@ class Session:
                     raise Violation("C18/reference-lost-its-value/after=" + op["op"], {"where": where, "name": name})
             if len(want) >= 1 and any(list(rec["bind"].values()).count(v) > 1 for v in want_ids):
                 self.ctx.nontrivial = True
-        try:
-            mx.core.mxsys._check_sanity()
-        except AssertionError:
+        if isinstance(library_self_check(), AssertionError):
             raise Violation("C18/sanity-check-failed/after=" + op["op"], {"op": op})
 
     def gen(self):
